@@ -2,6 +2,9 @@
 pub struct Context {
     pub mode: Mode,
     pub break_suppressed: bool,
+    /// The expression directly follows a hash in markup or math, so that text may follow it
+    /// without any separation. Only set for the expression itself, not for its parts.
+    pub embedded: bool,
 }
 
 impl Context {
@@ -14,6 +17,18 @@ impl Context {
             mode: if cond { mode } else { self.mode },
             ..*self
         }
+    }
+
+    /// Enters code mode for an expression that follows a hash, if it does.
+    pub fn after_hash(&self, at_hash: bool) -> Self {
+        Self {
+            embedded: at_hash,
+            ..self.with_mode_if(Mode::Code, at_hash)
+        }
+    }
+
+    pub fn embedded(&self, embedded: bool) -> Self {
+        Self { embedded, ..*self }
     }
 
     pub fn suppress_breaks(&self) -> Self {
